@@ -52,7 +52,15 @@ def gen(r, tier, i):
         nv = r.choice([1, 1, 2])
         vs = r.sample(VARS, nv)
         events.append([r.choice(TIMES), [[v, 100 * (j + 1) + r.randint(0, 9) if r.random() < 0.8 else 'v%d' % j] for v in vs]])
-    return {'events': events, 'ts': r.choice([0.5, 1, 2]), 'run': r.choice([4, 6, 8]),
+    share = []
+    if len(events) >= 2 and r.random() < 0.35:
+        # on/off protocols: one change-dict object listed at several times
+        i_src = r.randrange(len(events))
+        for j in range(len(events)):
+            if j != i_src and r.random() < 0.5:
+                events[j][1] = copy.deepcopy(events[i_src][1])
+                share.append([i_src, j])
+    return {'events': events, 'share': share, 'ts': r.choice([0.5, 1, 2]), 'run': r.choice([4, 6, 8]),
             'entry': r.choice(['direct', 'add_timeline', 'add_timeline_paths']), 'other': r.random() < 0.4}
 
 
@@ -125,7 +133,10 @@ def run(spec):
         def next_update(self, timestep, states):
             return {'o': {'n': 1}}
 
-    tl = [(t, {tuple(v): x for v, x in ch}) for t, ch in events]
+    tl = [[t, {tuple(v): x for v, x in ch}] for t, ch in events]
+    for i_src, j in spec.get('share', []):
+        tl[j][1] = tl[i_src][1]              # the same dictionary object
+    tl = [tuple(ev) for ev in tl]
     # where each port lives
     where = {p: (p,) for p in ports}
     if spec['entry'] == 'add_timeline_paths':
@@ -133,10 +144,10 @@ def run(spec):
     processes = {}
     topology = {}
     if spec['entry'] == 'direct':
-        processes['timeline'] = TimelineProcess({'timeline': copy.deepcopy(tl), 'time_step': ts})
+        processes['timeline'] = TimelineProcess({'timeline': tl, 'time_step': ts})
         topology['timeline'] = dict({'global': ('global',)}, **where)
     else:
-        cfg = {'timeline': copy.deepcopy(tl), 'time_step': ts}
+        cfg = {'timeline': tl, 'time_step': ts}
         if spec['entry'] == 'add_timeline_paths':
             cfg['paths'] = dict(where)
         add_timeline(processes, topology, cfg)
